@@ -72,7 +72,7 @@ theorem draining_step {O : List TaskId} {s s' : St} {t : Tid} (hL : InvL s) (hsp
       intro n h h0; subst h0; rcases h with ⟨h, _⟩ | ⟨h, _⟩ | ⟨h, _⟩ <;> cases h
     cases hs with
     | stutter => exact Or.inr P
-    | wr v hr =>
+    | wr v hr _ =>
       exact Or.inr ⟨P.sh, P.acq, by
         rcases P.st with h | ⟨d, hd, hok⟩
         · exact Or.inl h
